@@ -44,6 +44,22 @@ impl RegistryCore {
         let mut collector_id: u64 = 0;
 
         for desc in c.desc() {
+            // A label of the metric must not repeat one of the registry's
+            // common labels, gather() would expose the name twice.
+            if let Some(ref common) = self.labels {
+                let mut names = desc
+                    .const_label_pairs
+                    .iter()
+                    .map(|lp| lp.name())
+                    .chain(desc.variable_labels.iter().map(|n| n.as_str()));
+                if let Some(name) = names.find(|n| common.contains_key(*n)) {
+                    return Err(Error::Msg(format!(
+                        "label name {} of {:?} is already a common label of the registry",
+                        name, desc.fq_name
+                    )));
+                }
+            }
+
             // Is the desc_id unique?
             // (In other words: Is the fqName + constLabel combination unique?)
             if self.desc_ids.contains(&desc.id) {
